@@ -263,6 +263,10 @@ func catalogue() []geom.Geom {
 		geom.MultiLineString{{{X: 0, Y: 0}, {X: 100, Y: 0}}, {{X: 200, Y: 0}, {X: 300, Y: 0}, {X: 300, Y: 100}}, {{X: 0, Y: 200}, {X: 100, Y: 210}}},
 		geom.MultiLineString{{{X: 0, Y: 0}, {X: 100, Y: 0}}},
 		pAxis, pGen, pOpen, pOpenMinLast,
+		// sliver rings thinner than the larger tolerance: a perturbation below the
+		// tolerance flips their winding
+		geom.Polygon{{{X: 0, Y: 0}, {X: 100, Y: 0.04}, {X: 200, Y: 0}, {X: 0, Y: 0}}},
+		geom.Polygon{sq(0, 0, 400), {{X: 100, Y: 100}, {X: 200, Y: 100.03}, {X: 300, Y: 100}, {X: 100, Y: 100}}},
 		// a closed ring that visits one vertex twice (two loops touching at the
 		// origin): a rotation may start at either visit
 		geom.Polygon{{{X: 0, Y: 0}, {X: 100, Y: 0}, {X: 100, Y: 100}, {X: 0, Y: 0}, {X: -100, Y: 0}, {X: -100, Y: -100}, {X: 0, Y: 0}}},
@@ -492,7 +496,7 @@ func main() {
 		return
 	}
 	rep = report.New("C15", tier, "model_checking")
-	rep.Rule = "E1: 20 base geometries of all eight types (axis-aligned and general-position rings, closed and unclosed, a ring visiting one vertex twice, nested collections, empty geometries) whose members are >= 90 apart, tol in {1e-3, 0.1}; for each every derived h: identity; all coordinates perturbed by +-tol/2 in 6 sign patterns (expected true); every permutation of members combined with perturbation (true); every start rotation of closed rings (true); every single coordinate displaced by 2*tol, incl. the closing vertex of a closed ring on its own (false); every member deleted / duplicated at every position (false); every line / line member reversed (false); change of type with identical vertices (false); and, for containers, every such derivation applied to every member with the other members unchanged (nested to depth 2: rings permuted inside a multi-polygon member, members of a nested collection, ...). Every pair is evaluated in both directions (symmetry), and again twice with both operands cut from flat vertex buffers (same answers, buffers not written). Non-trivial = every derivation other than identity."
+	rep.Rule = "E1: 22 base geometries of all eight types (axis-aligned and general-position rings, closed and unclosed, a ring visiting one vertex twice, sliver rings thinner than the tolerance, nested collections, empty geometries) whose members are >= 90 apart, tol in {1e-3, 0.1}, and the same geometries shifted by (2e7,-3e7) with tol 1e-9 (below the float spacing there); for each every derived h: identity; all coordinates perturbed by +-tol/2 in 6 sign patterns (expected true); every permutation of members combined with perturbation (true); every start rotation of closed rings (true); every single coordinate displaced by 2*tol, incl. the closing vertex of a closed ring on its own (false); every member deleted / duplicated at every position (false); every line / line member reversed (false); change of type with identical vertices (false); and, for containers, every such derivation applied to every member with the other members unchanged (nested to depth 2: rings permuted inside a multi-polygon member, members of a nested collection, ...). Every pair is evaluated in both directions (symmetry), and again twice with both operands cut from flat vertex buffers (same answers, buffers not written). Non-trivial = every derivation other than identity."
 	cat := catalogue()
 	if tier == "thorough" {
 		cat = append(cat, generated()...)
@@ -507,6 +511,18 @@ func main() {
 				if hi != gi && fmt.Sprintf("%T", h) == fmt.Sprintf("%T", g) {
 					expect(g, h, tol, false, "different-geometry")
 				}
+			}
+		}
+		// far from the origin: the same geometry shifted by (2e7, -3e7), tolerance
+		// 1e-9 (below the spacing of float64 there): every derivation whose image
+		// is representable, i.e. differs from the original for an expected false
+		if _, isB := g.(*geom.Bounds); !isB {
+			far := mapPoints(g, func(_ int, q geom.Point) geom.Point { return geom.Point{X: q.X + 2e7, Y: q.Y - 3e7} })
+			for _, v := range allVariants(far, 1e-9, gi, 0) {
+				if !v.want && geomgen.Diff(far, v.h, true) == "" {
+					continue // the displacement vanished in rounding
+				}
+				expect(far, v.h, 1e-9, v.want, v.name+"|far-from-origin")
 			}
 		}
 		if gi%3 == 0 {
